@@ -13,6 +13,9 @@ NOTES={('C14','c'):'Not detected, by design: whether the arguments of a wrong-ar
        ('C03','i'):'Not detected, by design: whether a body-level declaration collides with a parameter / the function\'s own name depends on whether the body is the activation scope or a block inside it, which C03\'s scope list does not settle; out of domain in the model from the start.',
        ('C06','j'):'Not detected, by design: no property says what ইনপুট does at end of input; the model refuses runs that read past the end.',
        ('C16','o'):'Not detected by C16, caught by C14 (stdout-mismatch): the change reorders the evaluation of subscript and assigned value in `a[i] = v`, which is observable only when the two operands are different producers with side effects — evaluation order is what C14 pins; C16 compares producers of one and the same value, for which the order cannot show.',
+       ('C16','s'):'Not detected by C16, caught by C14 (stdout-mismatch): like C16-o an evaluation-order change (the assigned value is evaluated before the target of `o.k = v`), observable only between different producers with side effects.',
+       ('C14','t'):'Not detected, by design: the change moves the redeclaration check in front of the evaluation of the initialiser, so a rejected redeclaration no longer runs its initialiser. Like C14-c (arity check versus argument evaluation) the order between detecting the error and evaluating the operands of the failing statement is not pinned; the model treats a redeclaration whose initialiser has effects as out of domain.',
+       ('C10','t'):'Not detected by C10, caught by C02 (coercion-inconsistent:&): whole numbers outside the 64-bit range as operands of bitwise operators are outside what C02 pins ("act on 64-bit two\'s-complement integers") and the model refuses them; the literal itself still denotes the right double, so C10 has nothing to object to.',
        ('C13','c'):'With this change the repository\'s own flaky (non-baseline) parser test Object_Literal fails intermittently; the 157 stable tests pass.'}
 for (p,x),m in res.items():
     d=f'{V}/seeded/{p}-{x}'
@@ -22,7 +25,7 @@ for (p,x),m in res.items():
     meta['confirmed']={'applies_and_compiles':True,'repo_test_failures_with_change':int(m.group(5)),'demo_exit_without_change':int(m.group(3)),'demo_exit_with_change':int(m.group(4)),
       'how':f'tools/mutcheck.sh {p} {x} — fresh scratch worktree of /repo HEAD under /tmp, demo.sh run before and after `git apply patch.diff`, `go build ./...`, `go test -vet=off -count=1 ./...`, then ./vcheck with VERIF_REPO pointing at the worktree; worktree removed afterwards'}
     meta['checks_run']={c:{'quick_exit':int(rc),'first_signature':sig} for c,rc,sig in re.findall(r'(C\d+)=rc(\d)\[([^\]]*)\]',m.group(6))}
-    meta['source']='independent sub-agent given only the property text and a scratch worktree (round %d)'%({'a':1,'b':1,'c':2,'d':2,'e':3,'f':3,'g':4,'h':4,'i':5,'j':5,'k':6,'l':6,'m':7,'n':7,'o':8,'p':8,'q':9,'r':9}.get(x,0))
+    meta['source']='independent sub-agent given only the property text and a scratch worktree (round %d)'%({'a':1,'b':1,'c':2,'d':2,'e':3,'f':3,'g':4,'h':4,'i':5,'j':5,'k':6,'l':6,'m':7,'n':7,'o':8,'p':8,'q':9,'r':9,'s':10,'t':10}.get(x,0))
     if (p,x) in NOTES: meta['note']=NOTES[(p,x)]
     json.dump(meta,open(d+'/meta.json','w'),indent=1,ensure_ascii=False)
 rows=[]
